@@ -5,6 +5,7 @@ import (
 	"errors"
 	"fmt"
 	"maps"
+	"slices"
 	"sort"
 	"sync"
 
@@ -54,6 +55,14 @@ func pathConfCanBeUpdated(oldPathConf *conf.Path, newPathConf *conf.Path) bool {
 	clone.RPICameraBitrate = newPathConf.RPICameraBitrate
 
 	return newPathConf.Equal(clone)
+}
+
+// captureGroups returns the capture groups of a FindStringSubmatch result.
+func captureGroups(matches []string) []string {
+	if len(matches) > 1 {
+		return matches[1:]
+	}
+	return nil
 }
 
 type pathSetHLSServerRes struct {
@@ -245,7 +254,7 @@ func (pm *pathManager) doReloadConf(newPaths map[string]*conf.Path) {
 
 	// process existing paths
 	for pathName, pa := range pm.paths {
-		newPathConf, _, err := conf.FindPathConf(newPaths, pathName)
+		newPathConf, newMatches, err := conf.FindPathConf(newPaths, pathName)
 		// path does not have a config anymore: delete it
 		if err != nil {
 			pm.doClosePath(pa)
@@ -256,7 +265,9 @@ func (pm *pathManager) doReloadConf(newPaths map[string]*conf.Path) {
 		if newPathConf.Name != pa.confName {
 			// path config can be hot reloaded
 			oldPathConf := pm.pathConfs[pa.confName]
-			if pathConfCanBeUpdated(oldPathConf, newPathConf) {
+			// (only if the capture groups, which are fixed at path creation, stay the same)
+			if pathConfCanBeUpdated(oldPathConf, newPathConf) &&
+				slices.Equal(captureGroups(pa.matches), captureGroups(newMatches)) {
 				pa.confName = newPathConf.Name
 				go pa.reloadConf(newPathConf)
 				continue
